@@ -682,6 +682,12 @@ impl XferMon {
                     format!("task{task} ended as if done after ACK({}) although the final block {} (the first one shorter than blksize) was never sent", t.acked, n_final_here),
                 ));
             }
+            if rules.c07 && viol.is_none() && kind == Kind::Upload && t.final_ack_copies > 0 && t.inorder < n_final_here && spec.conformant {
+                viol = Some((
+                    "ended_before_final_block".into(),
+                    format!("task{task} treated block {} as the final one and ended, but the upload has {} blocks (a block reached it shorter than it was sent)", t.inorder, n_final_here),
+                ));
+            }
             let ended_ok = match kind {
                 Kind::Download => t.final_acked && t.last_recv == LastRecv::ValidAck && panic.is_none(),
                 Kind::Upload => t.last_action_was_final && panic.is_none(),
